@@ -244,6 +244,7 @@ func (g *genCtx) runC13(reqs []*genReq) {
 	for k, j := range jobs {
 		r := j[0].(*genReq)
 		o.kase("GENFEAT", []string{"[" + j[1].(string) + "]", fmt.Sprint(r.proto3Requested(r.generate)), hasMsgFlag(r)}, featObs(observedFeatures(results[k]), r))
+		g.gp.mainLine(o, r, replaceFeatures(r.param, j[1].(string)), results[k])
 	}
 }
 
